@@ -82,3 +82,170 @@ def bytes_roundtrip_shape(ck, F):
         r = w.trace(ops["workbook"])
         ok = r["kind"] == "arg" and r.get("name") == "workbook"
     ck.ob("BYTES-SHAPE", "from_workbook|keeps-workbook", ok, "Model is not built around the workbook argument itself", w.file, w.line)
+
+
+# ------------------------------------------------------------------------------------------------ C24
+XLSX_TYPES = ["types::Worksheet", "types::Row", "types::Col", "types::DefinedName", "types::Workbook", "types::Font", "types::Fill",
+              "types::Border", "types::BorderItem", "types::Alignment", "types::NumFmt", "types::CellXfs", "types::Styles",
+              "cf_types::ConditionalFormatting"]
+
+# (type, field) -> why it is not expected in the xlsx package (export side) / not read from it (import side)
+XLSX_EXPORT_ALLOW = {
+    ("types::Worksheet", "dimension"): "derived: recomputed from sheet_data by Worksheet::dimension() when exporting",
+    ("types::Worksheet", "shared_formulas"): "the R1C1 text is an internal cache: export prints the parsed formulas (Model.parsed_formulas) with to_excel_string",
+    ("types::Workbook", "name"): "the workbook name is the file name, not part of the package",
+    ("types::Workbook", "settings"): "timezone and locale are not stored in xlsx files; they are arguments of the importer",
+    ("types::CellXfs", "apply_protection"): "cell protection is not modelled by the engine",
+}
+XLSX_IMPORT_ALLOW = {}
+
+
+def cover_xlsx(ck, F):
+    """COVER-xlsx: every persistent field of the workbook types is read by code reachable from the xlsx writer and
+    set from the package by code reachable from the xlsx reader."""
+    from rules_attr import sources
+    from mir import reaching_defs, defs_reaching
+    R = "COVER-xlsx"
+    P = Program(F)
+    er, ir = set(), set()
+    for q in ("ironcalc::export::save_xlsx_to_writer", "ironcalc::export::save_to_xlsx"):
+        for p in F.by_qname.get(q, []):
+            er |= P.reachable(p)
+    for q in ("ironcalc::import::load_from_xlsx_bytes", "ironcalc::import::load_from_xlsx"):
+        for p in F.by_qname.get(q, []):
+            ir |= P.reachable(p)
+    ck.ob(R, "reachable", len(er) >= 150 and len(ir) >= 250, "export reaches %d bodies, import %d (anchors lost?)" % (len(er), len(ir)))
+    read = {}
+    for p in er:
+        if "ironcalc_base::" not in F._raw[p]:
+            continue
+        b = F.body(p)
+        for bi, si, pl, role in all_places(b):
+            if role != "r":
+                continue
+            for e in place_proj(pl):
+                if e[0] == "f" and e[3] and str(e[3]).startswith("ironcalc_base::"):
+                    read.setdefault(e[3], set()).add(e[2])
+    written = {}
+    for p in ir:
+        raw = F._raw[p]
+        if "ironcalc_base::" not in raw:
+            continue
+        b = F.body(p)
+        rd = None
+        for bi, si, s in b.stmts():
+            rv = s["rv"]
+            if rv["k"] == "agg" and rv.get("agg") == "adt" and rv["adt"].startswith("ironcalc_base::"):
+                for f, o in zip(rv["fields"], rv["ops"]):
+                    sr = sources(b, o)
+                    dep = not (sr <= {("const",)})
+                    if not dep:
+                        # a flag assigned under control of the input: more than one definition reaches the aggregate
+                        pl = op_place(o)
+                        if pl is not None and not place_proj(pl):
+                            if rd is None:
+                                rd = reaching_defs(b)
+                            base = pl["l"]
+                            for _ in range(4):
+                                rvd = b.def_rvalue(base)
+                                if rvd is not None and rvd.get("k") == "use" and op_place(rvd["o"]) is not None and not place_proj(op_place(rvd["o"])):
+                                    base = op_place(rvd["o"])["l"]
+                                else:
+                                    break
+                            if len(b.defs().get(base, [])) > 1:
+                                dep = True
+                    if dep:
+                        written.setdefault(rv["adt"], set()).add(f)
+            if place_proj(s["p"]):
+                fs = [e for e in place_proj(s["p"]) if e[0] == "f" and e[3] and str(e[3]).startswith("ironcalc_base::")]
+                if fs:
+                    written.setdefault(fs[-1][3], set()).add(fs[-1][2])
+    for t in XLSX_TYPES:
+        path = "ironcalc_base::" + t
+        a = F.adts.get(path)
+        if a is None:
+            ck.anchor("type %s" % path)
+            continue
+        for v in a["variants"]:
+            for f in v["fields"]:
+                fn = f["name"]
+                key = "%s.%s" % (t.rsplit("::", 1)[-1], fn)
+                if (t, fn) in XLSX_EXPORT_ALLOW:
+                    ck.ob(R, key + "|exported", True, XLSX_EXPORT_ALLOW[(t, fn)], nontrivial=False)
+                else:
+                    ck.ob(R, key + "|exported", fn in read.get(path, set()),
+                          "%s.%s is never read by code reachable from the xlsx writer: it cannot survive an export/import round trip" % (t, fn),
+                          a.get("file", ""), a.get("line", 0), sample={"field": key, "read_by_export": fn in read.get(path, set())})
+                if (t, fn) in XLSX_IMPORT_ALLOW:
+                    ck.ob(R, key + "|imported", True, XLSX_IMPORT_ALLOW[(t, fn)], nontrivial=False)
+                else:
+                    ck.ob(R, key + "|imported", fn in written.get(path, set()),
+                          "%s.%s is never set from the package by code reachable from the xlsx reader (constant default only)" % (t, fn),
+                          a.get("file", ""), a.get("line", 0), sample={"field": key, "set_by_import": fn in written.get(path, set())})
+    # every Cell variant has an export arm and an import constructor
+    CELL = "ironcalc_base::types::Cell"
+    cadt = F.adts[CELL]
+    exp_arms = set()
+    for p in er:
+        if F.heads[p]["crate"] != "ironcalc" or CELL not in F._raw[p]:
+            continue
+        b = F.body(p)
+        from mir import enum_switches
+        for bi, tg, wild, info in enum_switches(b, CELL):
+            exp_arms |= {v for v in tg if v is not None}
+            if wild:
+                exp_arms.add("*")
+    imp_cons = set()
+    for p in ir:
+        if '"adt":"%s"' % CELL not in F._raw[p]:
+            continue
+        b = F.body(p)
+        for bi, si, s in b.stmts():
+            if s["rv"]["k"] == "agg" and s["rv"].get("adt") == CELL:
+                imp_cons.add(s["rv"]["variant"])
+    for v in cadt["variants"]:
+        vn = v["name"]
+        ck.ob(R, "Cell::%s|export-arm" % vn, vn in exp_arms,
+              "no export arm handles Cell::%s explicitly (wildcard arm: %s)" % (vn, "*" in exp_arms), sample={"variant": vn})
+        ck.ob(R, "Cell::%s|import-constructor" % vn, vn in imp_cons, "the xlsx reader never constructs Cell::%s" % vn, sample={"variant": vn})
+    # formulas are exported through the xlsx printer and imported through an English parser
+    uses_excel = any("to_excel_string" in c for p in er for c in F.calls.get(p, []))
+    ck.ob(R, "export|formulas-through-to_excel_string", uses_excel, "export never calls to_excel_string")
+    eng = any("new_parser_english" in c for p in ir for c in F.calls.get(p, []))
+    ck.ob(R, "import|formulas-through-english-parser", eng, "import never builds an English parser")
+
+
+def escape_table(ck, F):
+    """escape_xml covers the five XML-special characters (TABLE over characters)."""
+    R = "XML-ESCAPE"
+    b = ck.need(F.one, "ironcalc::export::escape::escape_xml")
+    from tabx import collect
+    P = Program(F)
+    bodies = [F.body(p) for p in P.reachable(b.path)] + [F.body(p) for p in F.body_paths() if p.startswith(b.path + "::{")]
+    for p in list(P.reachable(b.path)):
+        bodies += [F.body(x) for x in F.body_paths() if x.startswith(p + "::{promoted")]
+    strs, chars = set(), set()
+    from pathx import parse_char_literal
+    from mir import rvalue_operands, term_operands
+    for bb in bodies:
+        c = collect(bb, range(len(bb.blocks)))
+        strs |= set(c["strs"])
+        for blk in bb.blocks:
+            ops = []
+            for s in blk["s"]:
+                ops.extend(rvalue_operands(s["rv"]))
+            ops.extend(term_operands(blk["t"]))
+            for o in ops:
+                k = o.get("k")
+                if k and k.get("ty") == "char":
+                    cp = parse_char_literal(k.get("v", k.get("d")))
+                    if cp is not None:
+                        chars.add(chr(cp))
+            t = blk["t"]
+            if t["k"] == "switch" and t["ty"] == "char":
+                chars |= {chr(int(v)) for v, _ in t["targets"]}
+    want = {"&": "&amp;", "<": "&lt;", ">": "&gt;", '"': "&quot;", "'": "&apos;"}
+    for ch, ent in want.items():
+        ck.ob(R, "escape_xml|%s" % ent, ch in chars and ent in strs,
+              "escape_xml does not map %r to %s (chars seen %s, entities %s)" % (ch, ent, sorted(chars)[:12], sorted(strs)[:8]), b.file, b.line,
+              sample={"char": ch, "entity": ent})
